@@ -102,11 +102,20 @@ pub fn gen_c08(tier: &str, rng: &mut Rng, emit: &mut Emit) {
         emit_int_all_types(emit, n, true);
     }
     if tier == "thorough" {
-        // u32 exhaustively through u32, u64 and usize
-        for n in 65_536..(1u64 << 32) {
+        // every 24-bit value, and every value whose low or high 16 bits are all zeros or all ones, through u32, u64 and usize
+        // (the whole u32 domain through three carriers would take hours through the extracted model)
+        let each = |emit: &mut Emit, n: u64| {
             emit.sweep(3, l(vec![a(32), a(n)]));
             emit.sweep(3, l(vec![a(64), a(n)]));
             emit.sweep(3, l(vec![a(0), a(n)]));
+        };
+        for n in 65_536..(1u64 << 24) {
+            each(emit, n);
+        }
+        for h in 0..65_536u64 {
+            each(emit, (h << 16) | 0xffff);
+            each(emit, h << 16);
+            each(emit, 0xffff_0000 | h);
         }
     }
     // width boundaries +-2, powers of two +-1, byte fills
@@ -241,15 +250,25 @@ fn rand_uuid(rng: &mut Rng) -> Vec<u8> {
 pub fn gen_c16(tier: &str, rng: &mut Rng, emit: &mut Emit) {
     // ---- EISA
     if tier == "thorough" {
-        // all 26^3 * 16^4 identifiers
+        // the identifier space is 26^3 * 16^4 = 1.15e9 (an hour per profile through the extracted model); the encoding treats
+        // the letter triple and the digit quadruple separately, so: every letter triple with 128 digit quadruples, and every
+        // digit quadruple with 64 letter triples
+        let hexq = |d: u32| [HEXU[(d >> 12) as usize & 15], HEXU[(d >> 8) as usize & 15], HEXU[(d >> 4) as usize & 15], HEXU[d as usize & 15]];
         for a0 in UPPER {
             for a1 in UPPER {
                 for a2 in UPPER {
-                    for d in 0..65_536u32 {
-                        let s = [*a0, *a1, *a2, HEXU[(d >> 12) as usize & 15], HEXU[(d >> 8) as usize & 15], HEXU[(d >> 4) as usize & 15], HEXU[d as usize & 15]];
-                        emit.sweep(5, text_case(&s));
+                    for _ in 0..128 {
+                        let q = hexq(rng.below(65_536) as u32);
+                        emit.sweep(5, text_case(&[*a0, *a1, *a2, q[0], q[1], q[2], q[3]]));
                     }
                 }
+            }
+        }
+        for d in 0..65_536u32 {
+            let q = hexq(d);
+            for _ in 0..64 {
+                let (a0, a1, a2) = (*rng.pick(UPPER), *rng.pick(UPPER), *rng.pick(UPPER));
+                emit.sweep(5, text_case(&[a0, a1, a2, q[0], q[1], q[2], q[3]]));
             }
         }
     } else {
